@@ -139,7 +139,9 @@ class RelativeValueIteration(ValueIteration):
     def _initialize_solver_state_elements(self) -> None:
         """Initialize solver state elements."""
         super()._initialize_solver_state_elements()
-        self.gain = 0.0
+        # The gain subtracted in each sweep is the value of the last state after the
+        # previous sweep; start from the initial estimate so this also holds for sweep 1
+        self.gain = self.values[-1]
 
     def _iteration_step(self) -> tuple[ValueFunction, float]:
         """Perform one iteration of the solution algorithm.
